@@ -24,8 +24,8 @@ func init() {
 	runner.Register(&runner.Check{
 		ID:    "C10",
 		Level: "model_checking",
-		Rule: "configuration = side {request, response} x limit L in 1..5 x in-memory limit M in {L, 1, L-1} (request side: M<L spills to a temp file) x action {Reject, ProcessPartial} x body processor {urlencoded, RAW via ctl} x optional per-transaction ctl:requestBodyLimit/responseBodyLimit in {2, 0, -1} (non-positive values must not take effect); " +
-			"breadth-first search over all sequences (depth <= 4 quick / 6 thorough) of 13 body-supplying calls {Write(0..3 bytes), ReadFrom(reader with Len, 1/2/3/5 bytes), ReadFrom(plain reader, 1/2/3/5 bytes), ReadFrom(reader failing after 2 bytes)}; byte i of the supplied stream is 'a'+i so loss, duplication and reordering are visible; " +
+		Rule: "configuration = side {request, response} x limit L in 1..5 (thorough 1..9) x in-memory limit M in {L, 1, L-1} (request side: M<L spills to a temp file) x action {Reject, ProcessPartial} x body processor {urlencoded, RAW via ctl} x optional per-transaction ctl:requestBodyLimit/responseBodyLimit in {2, 0, -1} (non-positive values must not take effect); " +
+			"breadth-first search over all sequences (depth <= 4 quick / 8 thorough) of 13 body-supplying calls {Write(0..3 bytes), ReadFrom(reader with Len, 1/2/3/5 bytes), ReadFrom(plain reader, 1/2/3/5 bytes), ReadFrom(reader failing after 2 bytes)}; byte i of the supplied stream is 'a'+i so loss, duplication and reordering are visible; " +
 			"on every transition the returned (interruption, n, err), the body reader content, REQUEST_BODY/RESPONSE_BODY after the body phase, INBOUND/OUTBOUND_DATA_ERROR and the body-phase counter are compared with an arithmetic model; a state is (stored bytes, bytes offered, interruption, body-phase count, limit flag); every history is then repeated on the pool-recycled transaction object, which must behave identically",
 		Assumptions: []string{
 			"what a connector supplies after a Reject has been returned is outside the property (those states are terminal)",
@@ -183,7 +183,11 @@ func (m *mstate) key() string {
 
 func configs(thorough bool, emit func(cfg)) {
 	for _, side := range []string{"req", "resp"} {
-		for L := 1; L <= 5; L++ {
+		maxL := 5
+		if thorough {
+			maxL = 9
+		}
+		for L := 1; L <= maxL; L++ {
 			ms := []int{L}
 			if side == "req" {
 				if L > 1 {
@@ -385,7 +389,7 @@ func histNames(h []int) []string {
 func run(c *runner.Ctx) {
 	depth := 4
 	if c.Thorough() {
-		depth = 6
+		depth = 8
 	}
 	idx := 0
 	configs(c.Thorough(), func(cf cfg) {
